@@ -110,10 +110,10 @@ pub fn output_tokens(
         span: trait_ident_span,
     };
 
-    let method_items = out_trait
-        .fns
-        .iter()
-        .map(|trait_fn| gen_delegation_method(trait_fn, generic_idents, &attr, contains_async));
+    let trait_path = quote! { #trait_ident #args };
+    let method_items = out_trait.fns.iter().map(|trait_fn| {
+        gen_delegation_method(trait_fn, generic_idents, &attr, contains_async, &trait_path)
+    });
 
     // Associated types can only be forwarded when `Impl<T>` delegates to a `T` that implements the trait itself:
     // a trait object (`delegate_by = ref`/`Borrow`) would have to name them, a delegation target trait is a different trait.
@@ -341,6 +341,7 @@ fn gen_delegation_method<'s>(
     generic_idents: &'s GenericIdents,
     attr: &'s EntraitTraitAttr,
     contains_async: ContainsAsync,
+    trait_path: &TokenStream,
 ) -> DelegatingMethod<'s> {
     // The trait method may declare its parameters with any pattern (`_: i32`, `(a, b): (i32, i32)`),
     // the delegating method needs plain identifiers that it can forward:
@@ -426,18 +427,26 @@ fn gen_delegation_method<'s>(
                 call,
             }
         }
+        // The calls below are fully qualified: nothing the invoking scope defines or imports (a blanket trait with an
+        // `as_ref` method, a supertrait with a method of the same name, ..) takes part in resolving them.
         (None, Some(SpanOpt(Delegate::ByRef(RefDelegate::AsRef), _))) => DelegatingMethod {
             trait_fn,
             sig: fn_sig,
             call: quote! {
-                #self_value.as_ref().as_ref().#fn_ident #turbofish (#(#arguments),*)
+                <dyn #trait_path as #trait_path>::#fn_ident #turbofish (
+                    <#impl_t as ::#core::convert::AsRef<dyn #trait_path>>::as_ref(&**#self_value),
+                    #(#arguments),*
+                )
             },
         },
         (None, Some(SpanOpt(Delegate::ByRef(RefDelegate::Borrow), _))) => DelegatingMethod {
             trait_fn,
             sig: fn_sig,
             call: quote! {
-                #self_value.as_ref().borrow().#fn_ident #turbofish (#(#arguments),*)
+                <dyn #trait_path as #trait_path>::#fn_ident #turbofish (
+                    <#impl_t as ::#core::borrow::Borrow<dyn #trait_path>>::borrow(&**#self_value),
+                    #(#arguments),*
+                )
             },
         },
         _ => {
@@ -445,11 +454,19 @@ fn gen_delegation_method<'s>(
                 fn_sig.inputs.first(),
                 Some(syn::FnArg::Receiver(receiver)) if generics::receiver_is_by_value(receiver)
             );
+            let entrait = &generic_idents.crate_idents.entrait;
             let call = if takes_self_by_value {
                 // a by-value receiver hands the application over to the delegate
-                quote! { #self_value.into_inner().#fn_ident #turbofish (#(#arguments),*) }
+                quote! {
+                    <#impl_t as #trait_path>::#fn_ident #turbofish (
+                        ::#entrait::Impl::<#impl_t>::into_inner(#self_value),
+                        #(#arguments),*
+                    )
+                }
             } else {
-                quote! { #self_value.as_ref().#fn_ident #turbofish (#(#arguments),*) }
+                quote! {
+                    <#impl_t as #trait_path>::#fn_ident #turbofish (&**#self_value, #(#arguments),*)
+                }
             };
 
             DelegatingMethod {
